@@ -998,9 +998,20 @@ pub trait QueryBuilder:
     ) {
         write!(sql, "CASE ").unwrap();
         let mut i = 0;
+        // The ordered expression is the left operand of `=`: keep it together unless it binds tighter.
+        let expr_paren = !self.inner_expr_well_known_greater_precedence(
+            &order_expr.expr,
+            &Oper::BinOper(BinOper::Equal),
+        );
         for value in &values.0 {
             write!(sql, "WHEN ").unwrap();
+            if expr_paren {
+                write!(sql, "(").unwrap();
+            }
             self.prepare_simple_expr(&order_expr.expr, sql);
+            if expr_paren {
+                write!(sql, ")").unwrap();
+            }
             write!(sql, "=").unwrap();
             let value = self.value_to_string(value);
             write!(sql, "{value}").unwrap();
